@@ -24,7 +24,8 @@ Inductive st :=
 | SIf (c: ex) (th: st) (el: option st)
 | SWhile (c: ex) (b: st)
 | SDo (b: st) (c: ex)
-| SFor (i c n: option ex) (b: st).
+| SFor (i c n: option ex) (b: st)
+| SBlock (items: list st).
 
 (* does the statement end in an if without else? *)
 Fixpoint sopen (x: st) : bool :=
@@ -44,13 +45,16 @@ Fixpoint swf (x: st) : Prop :=
   | SWhile c b => wf c /\ swf b
   | SDo b c => swf b /\ wf c
   | SFor i c n b => owf i /\ owf c /\ owf n /\ swf b
+  | SBlock items => (fix wl (l: list st) : Prop := match l with [] => True | y :: r => swf y /\ wl r end) items
   | _ => True
   end.
+Definition swfl (l: list st) : Prop := (fix wl (l: list st) : Prop := match l with [] => True | y :: r => swf y /\ wl r end) l.
 
 Fixpoint ssize (x: st) : nat :=
   match x with
   | SIf _ th el => S (ssize th + match el with Some e => ssize e | None => 0 end)
   | SWhile _ b | SDo b _ | SFor _ _ _ b => S (ssize b)
+  | SBlock items => S (list_sum (map ssize items))
   | _ => 1
   end.
 
@@ -67,6 +71,7 @@ Fixpoint embs (x: st) : value unit :=
   | SWhile c b => VNode C_While [embx c; embs b] None
   | SDo b c => VNode C_DoWhile [embx c; embs b] None
   | SFor i c n b => VNode C_For [oemb i; oemb c; oemb n; embs b] None
+  | SBlock items => VNode C_Compound [match items with [] => VNone | _ => VList (map embs items) end] None
   end.
 
 Section STK.
@@ -86,6 +91,7 @@ Fixpoint stoks (x: st) : list (kind * str) :=
   | SWhile c b => kw K_WHILE "while" :: kw K_LPAREN "(" :: xt rp c ++ kw K_RPAREN ")" :: stoks b
   | SDo b c => kw K_DO "do" :: stoks b ++ kw K_WHILE "while" :: kw K_LPAREN "(" :: xt rp c ++ [kw K_RPAREN ")"; kw K_SEMI ";"]
   | SFor i c n b => kw K_FOR "for" :: kw K_LPAREN "(" :: oxt i ++ kw K_SEMI ";" :: oxt c ++ kw K_SEMI ";" :: oxt n ++ kw K_RPAREN ")" :: stoks b
+  | SBlock items => kw K_LBRACE "{" :: concat (map stoks items) ++ [kw K_RBRACE "}"]
   end.
 End STK.
 
@@ -138,20 +144,18 @@ Lemma pcs_eq : forall f,
     else p_statement P f).
 Proof. reflexivity. Qed.
 
-(* a statement that does not start with an identifier, a pragma, a brace, case or default *)
+(* a statement that does not start with an identifier *)
 Lemma dispatch_kw : forall (s: pstate) t l, Up s (t :: l) -> kind_eqb (tk t) K_ID = false ->
-  (okind_is (Some (tk t)) K_PPPRAGMA || okind_is (Some (tk t)) K_uPRAGMA) = false ->
   exists s1, Up s1 (t :: l) /\ forall f,
-    p_pragmacomp_or_statement P (S (S f)) s =
+    p_statement P (S f) s =
     (match sclass (tk t) with
      | 0 => p_labeled_statement P f | 2 => p_compound_statement P f | 3 => p_selection_statement P f
      | 4 => p_iteration_statement P f | 5 => p_jump_statement P f | 6 => p_pppragma_directive P f
      | 7 => bind P (p_static_assert P f) (fun l => match l with x :: _ => ret P x | [] => crash P CK_Index end)
      | _ => p_expression_statement P f end) s1.
 Proof.
-  intros s t l HU Hid Hpr. destruct (peek_kind_up P s t l HU) as [s0 [H0 [HU0 _]]].
-  destruct (peek_kind_up P s0 t l HU0) as [s1 [H1 [HU1 _]]]. exists s1. split; [exact HU1|]. intros f.
-  rewrite pcs_eq. unfold bind at 1. rewrite H0. rewrite Hpr. rewrite stmt_eq. unfold bind at 1. rewrite H1.
+  intros s t l HU Hid. destruct (peek_kind_up P s t l HU) as [s1 [H1 [HU1 _]]]. exists s1. split; [exact HU1|]. intros f.
+  rewrite stmt_eq. unfold bind at 1. rewrite H1.
   unfold sclass. cbn [okind_is] in *. rewrite Hid.
   destruct (kind_eqb (tk t) K_CASE || kind_eqb (tk t) K_DEFAULT); [reflexivity|].
   unfold bind at 1. unfold ret at 1.
@@ -159,23 +163,31 @@ Proof.
   destruct (kind_eqb (tk t) K_IF || kind_eqb (tk t) K_SWITCH); [reflexivity|].
   destruct (kind_eqb (tk t) K_WHILE || kind_eqb (tk t) K_DO || kind_eqb (tk t) K_FOR); [reflexivity|].
   destruct (okind_in (Some (tk t)) [K_GOTO; K_BREAK; K_CONTINUE; K_RETURN]); [reflexivity|].
-  rewrite Hpr. destruct (kind_eqb (tk t) K_uSTATIC_ASSERT); reflexivity.
+  destruct (kind_eqb (tk t) K_PPPRAGMA || kind_eqb (tk t) K_uPRAGMA); [reflexivity|].
+  destruct (kind_eqb (tk t) K_uSTATIC_ASSERT); reflexivity.
 Qed.
 
 (* an expression statement that starts with an identifier: the label look-ahead finds no colon *)
 Lemma dispatch_id : forall (s: pstate) t t2 l, Up s (t :: t2 :: l) -> kind_eqb (tk t) K_ID = true -> kind_eqb (tk t2) K_COLON = false ->
-  exists s1, Up s1 (t :: t2 :: l) /\ forall f, p_pragmacomp_or_statement P (S (S f)) s = p_expression_statement P f s1.
+  exists s1, Up s1 (t :: t2 :: l) /\ forall f, p_statement P (S f) s = p_expression_statement P f s1.
 Proof.
-  intros s t t2 l HU Hid Hc. destruct (peek_kind_up P s t _ HU) as [s0 [H0 [HU0 _]]].
-  destruct (peek_kind_up P s0 t _ HU0) as [s1 [H1 [HU1 _]]].
+  intros s t t2 l HU Hid Hc. destruct (peek_kind_up P s t _ HU) as [s1 [H1 [HU1 _]]].
   destruct (peek2_up P s1 t t2 l HU1) as [s2 [H2 [HU2 _]]]. exists s2. split; [exact HU2|]. intros f.
   assert (Ek: tk t = K_ID) by (apply kind_eqb_eq; exact Hid).
-  rewrite pcs_eq. unfold bind at 1. rewrite H0. rewrite Ek. change (okind_is (Some K_ID) K_PPPRAGMA || okind_is (Some K_ID) K_uPRAGMA) with false. cbv iota.
   rewrite stmt_eq. unfold bind at 1. rewrite H1. rewrite Ek.
   change (okind_is (Some K_ID) K_CASE || okind_is (Some K_ID) K_DEFAULT) with false. cbv iota.
   change (okind_is (Some K_ID) K_ID) with true. cbv iota.
   unfold bind at 1. unfold bind at 1. rewrite H2. unfold ret at 1. cbn [okind_is]. rewrite Hc. reflexivity.
 Qed.
+
+(* a sub-statement position: no pragma in front *)
+Lemma pcs_stmt : forall (s: pstate) t l, Up s (t :: l) -> (okind_is (Some (tk t)) K_PPPRAGMA || okind_is (Some (tk t)) K_uPRAGMA) = false ->
+  exists s0, Up s0 (t :: l) /\ forall f, p_pragmacomp_or_statement P (S f) s = p_statement P f s0.
+Proof.
+  intros s t l HU Hpr. destruct (peek_kind_up P s t l HU) as [s0 [H0 [HU0 _]]]. exists s0. split; [exact HU0|]. intros f.
+  rewrite pcs_eq. unfold bind at 1. rewrite H0. rewrite Hpr. reflexivity.
+Qed.
+
 Lemma iter_eq : forall f,
   p_iteration_statement P (S f) =
   bind P (advance P) (fun t =>
@@ -258,9 +270,23 @@ Proof.
 Qed.
 
 (* ---- the statement level ---- *)
-Definition StmtS (kvs: list (kind * str)) (X: value unit) (op: bool) : Prop :=
+Definition StmtL (run: nat -> M P (ParserBase.node P)) (kvs: list (kind * str)) (X: value unit) (op: bool) : Prop :=
   forall (s: pstate) le (stop: tok) l0, Spell le kvs -> Up s (le ++ stop :: l0) -> (op = true -> kind_eqb (tk stop) K_ELSE = false) ->
-  exists f0 N s', (forall f, f0 <= f -> p_pragmacomp_or_statement P f s = Ok (N, s')) /\ Up s' (stop :: l0) /\ strip N = X.
+  exists f0 N s', (forall f, f0 <= f -> run f s = Ok (N, s')) /\ Up s' (stop :: l0) /\ strip N = X.
+Definition StmtS := StmtL (p_pragmacomp_or_statement P).     (* a sub-statement position *)
+Definition StmtS0 := StmtL (p_statement P).                   (* a block item *)
+
+(* the first token is no pragma: a statement is a sub-statement *)
+Definition nopragma (kvs: list (kind * str)) : Prop :=
+  exists k v rest, kvs = (k, v) :: rest /\ (okind_is (Some k) K_PPPRAGMA || okind_is (Some k) K_uPRAGMA) = false.
+Lemma s0_to_s : forall kvs X op, nopragma kvs -> StmtS0 kvs X op -> StmtS kvs X op.
+Proof.
+  intros kvs X op [k [v [rest [Ek Hnp]]]] H0 s le stop l0 HS HU Hop.
+  pose proof HS as HS0. rewrite Ek in HS. destruct (RoundTrip.Spell_cons_inv P _ _ _ _ HS) as [t [tl [El [Hk [_ _]]]]]. subst le.
+  cbn [app] in HU. rewrite <- Hk in Hnp. destruct (pcs_stmt s t _ HU Hnp) as [s0 [HU0 Hd]].
+  destruct (H0 s0 (t :: tl) stop l0 HS0 HU0 Hop) as [f0 [N [s1 [H1 [HU1 HN]]]]].
+  exists (S f0), N, s1. split; [|split; [exact HU1|exact HN]]. intros f Hf. destruct f as [|f]; [lia|]. rewrite Hd. apply H1. lia.
+Qed.
 
 (* what the first tokens of an expression statement must look like *)
 Definition estart (k: kind) : bool :=
@@ -270,7 +296,7 @@ Definition good2 (kvs: list (kind * str)) : Prop :=
     (kind_eqb k K_ID = true -> exists k2 v2 r2, rest = (k2, v2) :: r2 /\ kind_eqb k2 K_COLON = false).
 
 Lemma dispatch_expr : forall kvs (s: pstate) le rest, Spell le kvs -> good2 kvs -> Up s (le ++ rest) ->
-  exists s1, Up s1 (le ++ rest) /\ forall f, p_pragmacomp_or_statement P (S (S f)) s = p_expression_statement P f s1.
+  exists s1, Up s1 (le ++ rest) /\ forall f, p_statement P (S f) s = p_expression_statement P f s1.
 Proof.
   intros kvs s le rest HS [k [v [rest0 [Ek [Hes Hid]]]]] HU. subst kvs.
   destruct (RoundTrip.Spell_cons_inv P _ _ _ _ HS) as [t [tl [-> [Hkt [_ HStl]]]]]. cbn [app] in HU |- *.
@@ -281,11 +307,10 @@ Proof.
     destruct (RoundTrip.Spell_cons_inv P _ _ _ _ HStl) as [t2 [tl2 [-> [Hk2' [_ _]]]]]. cbn [app] in HU |- *.
     apply dispatch_id; [exact HU|rewrite Hkt; exact Eid|rewrite Hk2'; exact Hk2].
   - assert (Hidt: kind_eqb (tk t) K_ID = false) by (rewrite Hkt; exact Eid).
-    assert (Hprt: (okind_is (Some (tk t)) K_PPPRAGMA || okind_is (Some (tk t)) K_uPRAGMA) = false) by (rewrite Hkt; exact Hnp).
-    destruct (dispatch_kw s t _ HU Hidt Hprt) as [s1 [HU1 E]]. exists s1. split; [exact HU1|]. intros f. rewrite E. rewrite Hkt, Hcl. reflexivity.
+    destruct (dispatch_kw s t _ HU Hidt) as [s1 [HU1 E]]. exists s1. split; [exact HU1|]. intros f. rewrite E. rewrite Hkt, Hcl. reflexivity.
 Qed.
 
-Lemma s_expr : forall kx X c fs co, X = VNode c fs co -> ExprS P kx X -> good2 (kx ++ [kw K_SEMI ";"]) -> StmtS (kx ++ [kw K_SEMI ";"]) X false.
+Lemma s_expr : forall kx X c fs co, X = VNode c fs co -> ExprS P kx X -> good2 (kx ++ [kw K_SEMI ";"]) -> StmtS0 (kx ++ [kw K_SEMI ";"]) X false.
 Proof.
   intros kx X c fs co EX HE Hg s le stop l0 HS HU _.
   destruct (dispatch_expr _ s le (stop :: l0) HS Hg HU) as [s1 [HU1 Hd]].
@@ -301,38 +326,37 @@ Proof.
   assert (Hsmk: kind_eqb (tk sm) K_SEMI = true) by (rewrite Hsk; reflexivity).
   destruct (expect_up P s2 sm _ K_SEMI HU2 Hsmk) as [s3 [H3 [HU3 _]]].
   exists (S (S (S f0))), N, s3. split; [|split; [exact HU3|exact HN]].
-  intros f Hf. destruct f as [|[|[|f]]]; try lia. rewrite Hd. rewrite exprstmt_eq. unfold bind at 1. rewrite (H2 f) by lia.
+  intros f Hf. destruct f as [|[|f]]; try lia. rewrite Hd. rewrite exprstmt_eq. unfold bind at 1. rewrite (H2 f) by lia.
   unfold bind at 1. rewrite H3. rewrite EX in HN. destruct (strip_node_inv _ _ _ _ _ HN) as [fs' [co' ->]]. reflexivity.
 Qed.
 
 (* statements that start with a keyword *)
 Lemma disp_kw : forall k0 (s: pstate) t l, Up s (t :: l) -> tk t = k0 -> kind_eqb k0 K_ID = false ->
-  (okind_is (Some k0) K_PPPRAGMA || okind_is (Some k0) K_uPRAGMA) = false ->
   exists s1, Up s1 (t :: l) /\ forall f,
-    p_pragmacomp_or_statement P (S (S f)) s =
+    p_statement P (S f) s =
     (match sclass k0 with
      | 0 => p_labeled_statement P f | 2 => p_compound_statement P f | 3 => p_selection_statement P f
      | 4 => p_iteration_statement P f | 5 => p_jump_statement P f | 6 => p_pppragma_directive P f
      | 7 => bind P (p_static_assert P f) (fun l => match l with x :: _ => ret P x | [] => crash P CK_Index end)
      | _ => p_expression_statement P f end) s1.
-Proof. intros k0 s t l HU <- H1 H2. apply dispatch_kw; assumption. Qed.
+Proof. intros k0 s t l HU <- H1. apply dispatch_kw; assumption. Qed.
 
-Lemma s_empty : StmtS [kw K_SEMI ";"] (VNode C_EmptyStatement [] None) false.
+Lemma s_empty : StmtS0 [kw K_SEMI ";"] (VNode C_EmptyStatement [] None) false.
 Proof.
   intros s le stop l0 HS HU _. destruct (RoundTrip.Spell_cons_inv P _ _ _ _ HS) as [sm [l2 [-> [Hk [_ HS2]]]]]. apply (RoundTrip.Spell_nil_inv P) in HS2. subst l2.
-  cbn [app] in HU. destruct (disp_kw K_SEMI s sm _ HU Hk eq_refl eq_refl) as [s1 [HU1 Hd]]. cbv iota beta in Hd.
+  cbn [app] in HU. destruct (disp_kw K_SEMI s sm _ HU Hk eq_refl) as [s1 [HU1 Hd]]. cbv iota beta in Hd.
   change (sclass K_SEMI) with 8 in Hd. cbv iota in Hd.
   assert (Hns: sestart (tk sm) = false) by (rewrite Hk; reflexivity).
   destruct (expropt_none s1 sm _ HU1 Hns) as [s2 [H2 HU2]].
   assert (Hsmk: kind_eqb (tk sm) K_SEMI = true) by (rewrite Hk; reflexivity).
   destruct (expect_up P s2 sm _ K_SEMI HU2 Hsmk) as [s3 [H3 [HU3 _]]].
   exists 4, (mkN P C_EmptyStatement [] (Some (mkCoord P (curfile P s3) (tp sm)))), s3. split; [|split; [exact HU3|reflexivity]].
-  intros f Hf. destruct f as [|[|[|[|f]]]]; try lia. rewrite Hd. rewrite exprstmt_eq. unfold bind at 1. rewrite H2.
+  intros f Hf. destruct f as [|[|[|f]]]; try lia. rewrite Hd. rewrite exprstmt_eq. unfold bind at 1. rewrite H2.
   unfold bind at 1. rewrite H3. unfold bind at 1. rewrite tcoord_eq. reflexivity.
 Qed.
 
 Lemma jump_start : forall k0 (s: pstate) t l, Up s (t :: l) -> tk t = k0 -> kind_in k0 [K_GOTO; K_BREAK; K_CONTINUE; K_RETURN] = true ->
-  exists s2, Up s2 l /\ forall f, p_pragmacomp_or_statement P (S (S (S f))) s =
+  exists s2, Up s2 l /\ forall f, p_statement P (S (S f)) s =
     (if kind_eqb k0 K_GOTO then
       bind P (expect P K_ID) (fun nt => bind P (expect P K_SEMI) (fun _ => bind P (tcoord P t) (fun c => ret P (mkN P C_Goto [VStr (tv nt)] c))))
     else if kind_eqb k0 K_BREAK then bind P (expect P K_SEMI) (fun _ => bind P (tcoord P t) (fun c => ret P (mkN P C_Break [] c)))
@@ -347,14 +371,13 @@ Lemma jump_start : forall k0 (s: pstate) t l, Up s (t :: l) -> tk t = k0 -> kind
 Proof.
   intros k0 s t l HU Hk Hin.
   assert (H1: kind_eqb k0 K_ID = false) by (destruct k0; vm_compute in Hin; try discriminate Hin; reflexivity).
-  assert (H2: (okind_is (Some k0) K_PPPRAGMA || okind_is (Some k0) K_uPRAGMA) = false) by (destruct k0; vm_compute in Hin; try discriminate Hin; reflexivity).
   assert (H3: sclass k0 = 5) by (destruct k0; vm_compute in Hin; try discriminate Hin; reflexivity).
-  destruct (disp_kw k0 s t l HU Hk H1 H2) as [s1 [HU1 Hd]]. rewrite H3 in Hd.
+  destruct (disp_kw k0 s t l HU Hk H1) as [s1 [HU1 Hd]]. rewrite H3 in Hd.
   destruct (advance_up P s1 t l HU1) as [s2 [Ha [HU2 _]]]. exists s2. split; [exact HU2|].
   intros f. rewrite Hd. rewrite jump_eq. unfold bind at 1. rewrite Ha. rewrite Hk. reflexivity.
 Qed.
 
-Lemma s_break : StmtS [kw K_BREAK "break"; kw K_SEMI ";"] (VNode C_Break [] None) false.
+Lemma s_break : StmtS0 [kw K_BREAK "break"; kw K_SEMI ";"] (VNode C_Break [] None) false.
 Proof.
   intros s le stop l0 HS HU _. destruct (RoundTrip.Spell_cons_inv P _ _ _ _ HS) as [t [l2 [-> [Hk [_ HS2]]]]].
   destruct (RoundTrip.Spell_cons_inv P _ _ _ _ HS2) as [sm [l3 [-> [Hsk [_ HS3]]]]]. apply (RoundTrip.Spell_nil_inv P) in HS3. subst l3.
@@ -362,10 +385,10 @@ Proof.
   assert (Hsmk: kind_eqb (tk sm) K_SEMI = true) by (rewrite Hsk; reflexivity).
   destruct (expect_up P s2 sm _ K_SEMI HU2 Hsmk) as [s3 [H3 [HU3 _]]].
   exists 3, (mkN P C_Break [] (Some (mkCoord P (curfile P s3) (tp t)))), s3. split; [|split; [exact HU3|reflexivity]].
-  intros f Hf. destruct f as [|[|[|f]]]; try lia. rewrite Hd. kred. unfold bind at 1. rewrite H3. unfold bind at 1. rewrite tcoord_eq. reflexivity.
+  intros f Hf. destruct f as [|[|f]]; try lia. rewrite Hd. kred. unfold bind at 1. rewrite H3. unfold bind at 1. rewrite tcoord_eq. reflexivity.
 Qed.
 
-Lemma s_continue : StmtS [kw K_CONTINUE "continue"; kw K_SEMI ";"] (VNode C_Continue [] None) false.
+Lemma s_continue : StmtS0 [kw K_CONTINUE "continue"; kw K_SEMI ";"] (VNode C_Continue [] None) false.
 Proof.
   intros s le stop l0 HS HU _. destruct (RoundTrip.Spell_cons_inv P _ _ _ _ HS) as [t [l2 [-> [Hk [_ HS2]]]]].
   destruct (RoundTrip.Spell_cons_inv P _ _ _ _ HS2) as [sm [l3 [-> [Hsk [_ HS3]]]]]. apply (RoundTrip.Spell_nil_inv P) in HS3. subst l3.
@@ -373,10 +396,10 @@ Proof.
   assert (Hsmk: kind_eqb (tk sm) K_SEMI = true) by (rewrite Hsk; reflexivity).
   destruct (expect_up P s2 sm _ K_SEMI HU2 Hsmk) as [s3 [H3 [HU3 _]]].
   exists 3, (mkN P C_Continue [] (Some (mkCoord P (curfile P s3) (tp t)))), s3. split; [|split; [exact HU3|reflexivity]].
-  intros f Hf. destruct f as [|[|[|f]]]; try lia. rewrite Hd. kred. unfold bind at 1. rewrite H3. unfold bind at 1. rewrite tcoord_eq. reflexivity.
+  intros f Hf. destruct f as [|[|f]]; try lia. rewrite Hd. kred. unfold bind at 1. rewrite H3. unfold bind at 1. rewrite tcoord_eq. reflexivity.
 Qed.
 
-Lemma s_goto : forall l, StmtS [kw K_GOTO "goto"; (K_ID, l); kw K_SEMI ";"] (VNode C_Goto [VStr l] None) false.
+Lemma s_goto : forall l, StmtS0 [kw K_GOTO "goto"; (K_ID, l); kw K_SEMI ";"] (VNode C_Goto [VStr l] None) false.
 Proof.
   intros lbl s le stop l0 HS HU _. destruct (RoundTrip.Spell_cons_inv P _ _ _ _ HS) as [t [l2 [-> [Hk [_ HS2]]]]].
   destruct (RoundTrip.Spell_cons_inv P _ _ _ _ HS2) as [nt [l3 [-> [Hnk [Hnv HS3]]]]].
@@ -387,11 +410,11 @@ Proof.
   assert (Hsmk: kind_eqb (tk sm) K_SEMI = true) by (rewrite Hsk; reflexivity).
   destruct (expect_up P s3 sm _ K_SEMI HU3 Hsmk) as [s4 [H4 [HU4 _]]].
   exists 3, (mkN P C_Goto [VStr (tv nt)] (Some (mkCoord P (curfile P s4) (tp t)))), s4. split; [|split; [exact HU4|unfold mkN; cbn; rewrite Hnv; reflexivity]].
-  intros f Hf. destruct f as [|[|[|f]]]; try lia. rewrite Hd. kred. unfold bind at 1. rewrite H3. unfold bind at 1. rewrite H4.
+  intros f Hf. destruct f as [|[|f]]; try lia. rewrite Hd. kred. unfold bind at 1. rewrite H3. unfold bind at 1. rewrite H4.
   unfold bind at 1. rewrite tcoord_eq. reflexivity.
 Qed.
 
-Lemma s_return0 : StmtS [kw K_RETURN "return"; kw K_SEMI ";"] (VNode C_Return [VNone] None) false.
+Lemma s_return0 : StmtS0 [kw K_RETURN "return"; kw K_SEMI ";"] (VNode C_Return [VNone] None) false.
 Proof.
   intros s le stop l0 HS HU _. destruct (RoundTrip.Spell_cons_inv P _ _ _ _ HS) as [t [l2 [-> [Hk [_ HS2]]]]].
   destruct (RoundTrip.Spell_cons_inv P _ _ _ _ HS2) as [sm [l3 [-> [Hsk [_ HS3]]]]]. apply (RoundTrip.Spell_nil_inv P) in HS3. subst l3.
@@ -399,11 +422,11 @@ Proof.
   assert (Hsmk: kind_eqb (tk sm) K_SEMI = true) by (rewrite Hsk; reflexivity).
   destruct (accept_hit P s2 sm _ K_SEMI HU2 Hsmk) as [s3 [H3 [HU3 _]]].
   exists 3, (mkN P C_Return [VNone] (Some (mkCoord P (curfile P s3) (tp t)))), s3. split; [|split; [exact HU3|reflexivity]].
-  intros f Hf. destruct f as [|[|[|f]]]; try lia. rewrite Hd. kred. unfold bind at 1. rewrite H3. unfold bind at 1. rewrite tcoord_eq. reflexivity.
+  intros f Hf. destruct f as [|[|f]]; try lia. rewrite Hd. kred. unfold bind at 1. rewrite H3. unfold bind at 1. rewrite tcoord_eq. reflexivity.
 Qed.
 
 Lemma s_return1 : forall kx X, (exists k v rest, kx = (k, v) :: rest /\ sestart k = true) -> ExprS P kx X ->
-  StmtS (kw K_RETURN "return" :: kx ++ [kw K_SEMI ";"]) (VNode C_Return [X] None) false.
+  StmtS0 (kw K_RETURN "return" :: kx ++ [kw K_SEMI ";"]) (VNode C_Return [X] None) false.
 Proof.
   intros kx X [k [v [rest [Ek Hsk0]]]] HE s le stop l0 HS HU _. destruct (RoundTrip.Spell_cons_inv P _ _ _ _ HS) as [t [l2 [-> [Hk [_ HS2]]]]].
   destruct (RoundTrip.Spell_app_inv P _ _ _ HS2) as [lx [l3 [-> [HSx HS3]]]].
@@ -420,12 +443,12 @@ Proof.
   assert (Hsmk: kind_eqb (tk sm) K_SEMI = true) by (rewrite Hsk; reflexivity).
   destruct (expect_up P s4 sm _ K_SEMI HU4 Hsmk) as [s5 [H5 [HU5 _]]].
   exists (S (S (S f0))), (mkN P C_Return [N] (Some (mkCoord P (curfile P s5) (tp t)))), s5. split; [|split; [exact HU5|unfold mkN; cbn [strip map]; rewrite HN; reflexivity]].
-  intros f Hf. destruct f as [|[|[|f]]]; try lia. rewrite Hd. kred. unfold bind at 1. rewrite H3. unfold bind at 1. rewrite (H4 f) by lia.
+  intros f Hf. destruct f as [|[|f]]; try lia. rewrite Hd. kred. unfold bind at 1. rewrite H3. unfold bind at 1. rewrite (H4 f) by lia.
   unfold bind at 1. rewrite H5. unfold bind at 1. rewrite tcoord_eq. reflexivity.
 Qed.
 (* ---- if / while / do / for ---- *)
 Lemma sel_start : forall (s: pstate) t l, Up s (t :: l) -> tk t = K_IF ->
-  exists s2, Up s2 l /\ forall f, p_pragmacomp_or_statement P (S (S (S f))) s =
+  exists s2, Up s2 l /\ forall f, p_statement P (S (S f)) s =
     bind P (expect P K_LPAREN) (fun _ => bind P (p_expression P f) (fun cond => bind P (expect P K_RPAREN) (fun _ =>
     bind P (p_pragmacomp_or_statement P f) (fun th => bind P (accept P K_ELSE) (fun el =>
     match el with
@@ -433,7 +456,7 @@ Lemma sel_start : forall (s: pstate) t l, Up s (t :: l) -> tk t = K_IF ->
     | None => bind P (tcoord P t) (fun c => ret P (mkN P C_If [cond; th; VNone] c))
     end))))) s2.
 Proof.
-  intros s t l HU Hk. destruct (disp_kw K_IF s t l HU Hk eq_refl eq_refl) as [s1 [HU1 Hd]]. change (sclass K_IF) with 3 in Hd. cbv iota in Hd.
+  intros s t l HU Hk. destruct (disp_kw K_IF s t l HU Hk eq_refl) as [s1 [HU1 Hd]]. change (sclass K_IF) with 3 in Hd. cbv iota in Hd.
   destruct (advance_up P s1 t l HU1) as [s2 [Ha [HU2 _]]]. exists s2. split; [exact HU2|].
   intros f. rewrite Hd. rewrite (sel_eq P). unfold bind at 1. rewrite Ha. rewrite Hk. reflexivity.
 Qed.
@@ -451,24 +474,24 @@ Definition for_body (t: tok) (f: nat) : M P (ParserBase.node P) :=
   bind P (p_pragmacomp_or_statement P f) (fun st => bind P (tcoord P t) (fun c => ret P (mkN P C_For [init; cond; nx; st] c))))))))).
 
 Lemma while_start : forall (s: pstate) t l, Up s (t :: l) -> tk t = K_WHILE ->
-  exists s2, Up s2 l /\ forall f, p_pragmacomp_or_statement P (S (S (S f))) s = while_body t f s2.
+  exists s2, Up s2 l /\ forall f, p_statement P (S (S f)) s = while_body t f s2.
 Proof.
-  intros s t l HU Hk. destruct (disp_kw K_WHILE s t l HU Hk eq_refl eq_refl) as [s1 [HU1 Hd]]. change (sclass K_WHILE) with 4 in Hd. cbv iota in Hd.
+  intros s t l HU Hk. destruct (disp_kw K_WHILE s t l HU Hk eq_refl) as [s1 [HU1 Hd]]. change (sclass K_WHILE) with 4 in Hd. cbv iota in Hd.
   destruct (advance_up P s1 t l HU1) as [s2 [Ha [HU2 _]]]. exists s2. split; [exact HU2|].
   intros f. rewrite Hd. rewrite iter_eq. unfold bind at 1. rewrite Ha. rewrite Hk. reflexivity.
 Qed.
 Lemma do_start : forall (s: pstate) t l, Up s (t :: l) -> tk t = K_DO ->
-  exists s2, Up s2 l /\ forall f, p_pragmacomp_or_statement P (S (S (S f))) s = do_body t f s2.
+  exists s2, Up s2 l /\ forall f, p_statement P (S (S f)) s = do_body t f s2.
 Proof.
-  intros s t l HU Hk. destruct (disp_kw K_DO s t l HU Hk eq_refl eq_refl) as [s1 [HU1 Hd]]. change (sclass K_DO) with 4 in Hd. cbv iota in Hd.
+  intros s t l HU Hk. destruct (disp_kw K_DO s t l HU Hk eq_refl) as [s1 [HU1 Hd]]. change (sclass K_DO) with 4 in Hd. cbv iota in Hd.
   destruct (advance_up P s1 t l HU1) as [s2 [Ha [HU2 _]]]. exists s2. split; [exact HU2|].
   intros f. rewrite Hd. rewrite iter_eq. unfold bind at 1. rewrite Ha. rewrite Hk. reflexivity.
 Qed.
 (* for ( : the token after the parenthesis does not start a declaration *)
 Lemma for_start : forall (s: pstate) t lp x l, Up s (t :: lp :: x :: l) -> tk t = K_FOR -> tk lp = K_LPAREN -> kind_in (tk x) tbl_DECL_START = false ->
-  exists s2, Up s2 (x :: l) /\ forall f, p_pragmacomp_or_statement P (S (S (S f))) s = for_body t f s2.
+  exists s2, Up s2 (x :: l) /\ forall f, p_statement P (S (S f)) s = for_body t f s2.
 Proof.
-  intros s t lp x l HU Hk Hlp Hx. destruct (disp_kw K_FOR s t _ HU Hk eq_refl eq_refl) as [s1 [HU1 Hd]]. change (sclass K_FOR) with 4 in Hd. cbv iota in Hd.
+  intros s t lp x l HU Hk Hlp Hx. destruct (disp_kw K_FOR s t _ HU Hk eq_refl) as [s1 [HU1 Hd]]. change (sclass K_FOR) with 4 in Hd. cbv iota in Hd.
   destruct (advance_up P s1 t _ HU1) as [s2 [Ha [HU2 _]]].
   assert (Hlpk: kind_eqb (tk lp) K_LPAREN = true) by (rewrite Hlp; reflexivity).
   destruct (expect_up P s2 lp _ K_LPAREN HU2 Hlpk) as [s3 [H3 [HU3 _]]].
@@ -478,7 +501,7 @@ Proof.
 Qed.
 
 Lemma s_if : forall kc Xc kth Xth opth, ExprS P kc Xc -> StmtS kth Xth opth ->
-  StmtS (kw K_IF "if" :: kw K_LPAREN "(" :: kc ++ kw K_RPAREN ")" :: kth) (VNode C_If [Xc; Xth; VNone] None) true.
+  StmtS0 (kw K_IF "if" :: kw K_LPAREN "(" :: kc ++ kw K_RPAREN ")" :: kth) (VNode C_If [Xc; Xth; VNone] None) true.
 Proof.
   intros kc Xc kth Xth opth HE HT s le stop l0 HS HU Hop.
   destruct (RoundTrip.Spell_cons_inv P _ _ _ _ HS) as [t [l1 [-> [Hk [_ HS1]]]]].
@@ -497,12 +520,12 @@ Proof.
   destruct (accept_miss P s6 stop l0 K_ELSE HU6 (Hop eq_refl)) as [s7 [H7 [HU7 _]]].
   exists (S (S (S (Nat.max f1 f2)))), (mkN P C_If [Nc; Nth; VNone] (Some (mkCoord P (curfile P s7) (tp t)))), s7.
   split; [|split; [exact HU7|unfold mkN; cbn [strip map]; rewrite HNc, HNth; reflexivity]].
-  intros f Hf. destruct f as [|[|[|f]]]; try lia. rewrite Hd. unfold bind at 1. rewrite H3. unfold bind at 1. rewrite (H4 f) by lia.
+  intros f Hf. destruct f as [|[|f]]; try lia. rewrite Hd. unfold bind at 1. rewrite H3. unfold bind at 1. rewrite (H4 f) by lia.
   unfold bind at 1. rewrite H5. unfold bind at 1. rewrite (H6 f) by lia. unfold bind at 1. rewrite H7. unfold bind at 1. rewrite tcoord_eq. reflexivity.
 Qed.
 
 Lemma s_ifelse : forall kc Xc kth Xth kel Xel opel, ExprS P kc Xc -> StmtS kth Xth false -> StmtS kel Xel opel ->
-  StmtS (kw K_IF "if" :: kw K_LPAREN "(" :: kc ++ kw K_RPAREN ")" :: kth ++ kw K_ELSE "else" :: kel) (VNode C_If [Xc; Xth; Xel] None) opel.
+  StmtS0 (kw K_IF "if" :: kw K_LPAREN "(" :: kc ++ kw K_RPAREN ")" :: kth ++ kw K_ELSE "else" :: kel) (VNode C_If [Xc; Xth; Xel] None) opel.
 Proof.
   intros kc Xc kth Xth kel Xel opel HE HT HL s le stop l0 HS HU Hop.
   destruct (RoundTrip.Spell_cons_inv P _ _ _ _ HS) as [t [l1 [-> [Hk [_ HS1]]]]].
@@ -525,13 +548,13 @@ Proof.
   destruct (HL s7 lel stop l0 HSel HU7 Hop) as [f3 [Nel [s8 [H8 [HU8 HNel]]]]].
   exists (S (S (S (Nat.max f1 (Nat.max f2 f3))))), (mkN P C_If [Nc; Nth; Nel] (Some (mkCoord P (curfile P s8) (tp t)))), s8.
   split; [|split; [exact HU8|unfold mkN; cbn [strip map]; rewrite HNc, HNth, HNel; reflexivity]].
-  intros f Hf. destruct f as [|[|[|f]]]; try lia. rewrite Hd. unfold bind at 1. rewrite H3. unfold bind at 1. rewrite (H4 f) by lia.
+  intros f Hf. destruct f as [|[|f]]; try lia. rewrite Hd. unfold bind at 1. rewrite H3. unfold bind at 1. rewrite (H4 f) by lia.
   unfold bind at 1. rewrite H5. unfold bind at 1. rewrite (H6 f) by lia. unfold bind at 1. rewrite H7.
   unfold bind at 1. rewrite (H8 f) by lia. unfold bind at 1. rewrite tcoord_eq. reflexivity.
 Qed.
 
 Lemma s_while : forall kc Xc kb Xb opb, ExprS P kc Xc -> StmtS kb Xb opb ->
-  StmtS (kw K_WHILE "while" :: kw K_LPAREN "(" :: kc ++ kw K_RPAREN ")" :: kb) (VNode C_While [Xc; Xb] None) opb.
+  StmtS0 (kw K_WHILE "while" :: kw K_LPAREN "(" :: kc ++ kw K_RPAREN ")" :: kb) (VNode C_While [Xc; Xb] None) opb.
 Proof.
   intros kc Xc kb Xb opb HE HB s le stop l0 HS HU Hop.
   destruct (RoundTrip.Spell_cons_inv P _ _ _ _ HS) as [t [l1 [-> [Hk [_ HS1]]]]].
@@ -549,12 +572,12 @@ Proof.
   destruct (HB s5 lb stop l0 HSb HU5 Hop) as [f2 [Nb [s6 [H6 [HU6 HNb]]]]].
   exists (S (S (S (Nat.max f1 f2)))), (mkN P C_While [Nc; Nb] (Some (mkCoord P (curfile P s6) (tp t)))), s6.
   split; [|split; [exact HU6|unfold mkN; cbn [strip map]; rewrite HNc, HNb; reflexivity]].
-  intros f Hf. destruct f as [|[|[|f]]]; try lia. rewrite Hd. unfold while_body. unfold bind at 1. rewrite H3. unfold bind at 1. rewrite (H4 f) by lia.
+  intros f Hf. destruct f as [|[|f]]; try lia. rewrite Hd. unfold while_body. unfold bind at 1. rewrite H3. unfold bind at 1. rewrite (H4 f) by lia.
   unfold bind at 1. rewrite H5. unfold bind at 1. rewrite (H6 f) by lia. unfold bind at 1. rewrite tcoord_eq. reflexivity.
 Qed.
 
 Lemma s_do : forall kc Xc kb Xb opb, ExprS P kc Xc -> StmtS kb Xb opb ->
-  StmtS (kw K_DO "do" :: kb ++ kw K_WHILE "while" :: kw K_LPAREN "(" :: kc ++ [kw K_RPAREN ")"; kw K_SEMI ";"]) (VNode C_DoWhile [Xc; Xb] None) false.
+  StmtS0 (kw K_DO "do" :: kb ++ kw K_WHILE "while" :: kw K_LPAREN "(" :: kc ++ [kw K_RPAREN ")"; kw K_SEMI ";"]) (VNode C_DoWhile [Xc; Xb] None) false.
 Proof.
   intros kc Xc kb Xb opb HE HB s le stop l0 HS HU _.
   destruct (RoundTrip.Spell_cons_inv P _ _ _ _ HS) as [t [l1 [-> [Hk [_ HS1]]]]].
@@ -580,7 +603,7 @@ Proof.
   destruct (expect_up P s7 sm _ K_SEMI HU7 Hsmk) as [s8 [H8 [HU8 _]]].
   exists (S (S (S (Nat.max f1 f2)))), (mkN P C_DoWhile [Nc; Nb] (Some (mkCoord P (curfile P s8) (tp t)))), s8.
   split; [|split; [exact HU8|unfold mkN; cbn [strip map]; rewrite HNc, HNb; reflexivity]].
-  intros f Hf. destruct f as [|[|[|f]]]; try lia. rewrite Hd. unfold do_body. unfold bind at 1. rewrite (H3 f) by lia.
+  intros f Hf. destruct f as [|[|f]]; try lia. rewrite Hd. unfold do_body. unfold bind at 1. rewrite (H3 f) by lia.
   unfold bind at 1. rewrite H4. unfold bind at 1. rewrite H5. unfold bind at 1. rewrite (H6 f) by lia.
   unfold bind at 1. rewrite H7. unfold bind at 1. rewrite H8. unfold bind at 1. rewrite tcoord_eq. reflexivity.
 Qed.
@@ -611,7 +634,7 @@ Proof.
 Qed.
 
 Lemma s_for : forall ki Xi kc Xc kn Xn kb Xb opb, OptOK ki Xi -> OptOK kc Xc -> OptOK kn Xn -> StmtS kb Xb opb ->
-  StmtS (kw K_FOR "for" :: kw K_LPAREN "(" :: ki ++ kw K_SEMI ";" :: kc ++ kw K_SEMI ";" :: kn ++ kw K_RPAREN ")" :: kb)
+  StmtS0 (kw K_FOR "for" :: kw K_LPAREN "(" :: ki ++ kw K_SEMI ";" :: kc ++ kw K_SEMI ";" :: kn ++ kw K_RPAREN ")" :: kb)
         (VNode C_For [Xi; Xc; Xn; Xb] None) opb.
 Proof.
   intros ki Xi kc Xc kn Xn kb Xb opb Hi Hc Hn HB s le stop l0 HS HU Hop.
@@ -652,10 +675,110 @@ Proof.
   destruct (HB s8 lb stop l0 HSb HU8 Hop) as [f4 [Nb [s9 [H9 [HU9 HNb]]]]].
   exists (S (S (S (Nat.max (Nat.max f1 f2) (Nat.max f3 f4))))), (mkN P C_For [Ni; Nc; Nn; Nb] (Some (mkCoord P (curfile P s9) (tp t)))), s9.
   split; [|split; [exact HU9|unfold mkN; cbn [strip map]; rewrite HNi, HNc, HNn, HNb; reflexivity]].
-  intros f Hf. destruct f as [|[|[|f]]]; try lia. rewrite Hd. unfold for_body. unfold bind at 1. rewrite (H3 f) by lia.
+  intros f Hf. destruct f as [|[|f]]; try lia. rewrite Hd. unfold for_body. unfold bind at 1. rewrite (H3 f) by lia.
   unfold bind at 1. rewrite H4. unfold bind at 1. rewrite (H5 f) by lia. unfold bind at 1. rewrite H6.
   unfold bind at 1. rewrite (H7 f) by lia. unfold bind at 1. rewrite H8. unfold bind at 1. rewrite (H9 f) by lia.
   unfold bind at 1. rewrite tcoord_eq. reflexivity.
+Qed.
+(* ---- blocks ---- *)
+Lemma blk_eq : forall f,
+  p_block_item_list P (S f) =
+  bind P (peek_kind P) (fun k =>
+    match k with
+    | None => ret P []
+    | Some k' =>
+      if kind_eqb k' K_RBRACE then ret P []
+      else bind P (starts_declaration P) (fun sd =>
+           bind P (if sd then p_declaration P f else bind P (p_statement P f) (fun s0 => ret P (stmt_to_items P s0))) (fun items =>
+           bind P (p_block_item_list P f) (fun rest => ret P (items ++ rest))))
+    end).
+Proof. reflexivity. Qed.
+
+(* what the first token of a statement looks like: no pragma, no `}`, no declaration start, no `else` *)
+Definition sstart (k: kind) : bool :=
+  negb (okind_is (Some k) K_PPPRAGMA || okind_is (Some k) K_uPRAGMA) && negb (kind_eqb k K_RBRACE) &&
+  negb (kind_in k tbl_DECL_START) && negb (kind_eqb k K_ELSE).
+Definition shead (kvs: list (kind * str)) : Prop := exists k v rest, kvs = (k, v) :: rest /\ sstart k = true.
+Lemma sstart_facts : forall k, sstart k = true ->
+  (okind_is (Some k) K_PPPRAGMA || okind_is (Some k) K_uPRAGMA) = false /\ kind_eqb k K_RBRACE = false /\
+  kind_in k tbl_DECL_START = false /\ kind_eqb k K_ELSE = false.
+Proof.
+  intros k H. unfold sstart in H. do 3 (apply andb_true_iff in H; destruct H as [H ?]).
+  repeat match goal with X: negb _ = true |- _ => apply negb_true_iff in X end. repeat split; assumption.
+Qed.
+Lemma shead_nopragma : forall kvs, shead kvs -> nopragma kvs.
+Proof. intros kvs [k [v [rest [E H]]]]. exists k, v, rest. split; [exact E|exact (proj1 (sstart_facts k H))]. Qed.
+
+Definition item_ok (it: list (kind * str) * value unit * bool) : Prop :=
+  let '(kvs, X, op) := it in StmtS0 kvs X op /\ shead kvs /\ exists c fs co, X = VNode c fs co.
+
+Lemma blk_run : forall items, Forall item_ok items ->
+  forall (s: pstate) le (rb: tok) rest, Spell le (concat (map (fun it => fst (fst it)) items)) -> Up s (le ++ rb :: rest) -> tk rb = K_RBRACE ->
+  exists f0 Ns s', (forall f, f0 <= f -> p_block_item_list P f s = Ok (Ns, s')) /\ Up s' (rb :: rest) /\ map strip Ns = map (fun it => snd (fst it)) items.
+Proof.
+  induction items as [|[[kvs X] op] items IH]; intros HF s le rb rest HS HU Hrb.
+  - apply (RoundTrip.Spell_nil_inv P) in HS. subst le. cbn [app] in HU.
+    destruct (peek_kind_up P s rb rest HU) as [s1 [H1 [HU1 _]]]. exists 1, [], s1. split; [|split; [exact HU1|reflexivity]].
+    intros f Hf. destruct f as [|f]; [lia|]. rewrite blk_eq. unfold bind at 1. rewrite H1. rewrite Hrb. reflexivity.
+  - inversion HF as [|x y Hit HF']; subst x y. unfold item_ok in Hit. destruct Hit as [H0 [[k [v [rest0 [Ek Hsk]]]] [c [fs [co EX]]]]].
+    cbn [map concat fst snd] in HS. destruct (RoundTrip.Spell_app_inv P _ _ _ HS) as [l1 [lr [-> [HS1 HSr]]]].
+    destruct (sstart_facts k Hsk) as (_ & Hnrb & Hnds & _).
+    pose proof HS1 as HS1'. rewrite Ek in HS1'. destruct (RoundTrip.Spell_cons_inv P _ _ _ _ HS1') as [t [tl [El [Hkt [_ _]]]]]. subst l1.
+    rewrite <- app_assoc in HU. cbn [app] in HU.
+    destruct (peek_kind_up P s t _ HU) as [s1 [H1 [HU1 _]]].
+    destruct (peek_kind_up P s1 t _ HU1) as [s2 [H2 [HU2 _]]].
+    (* the token after this item: the first token of the next item, or the closing brace - never `else` *)
+    assert (Hnext: exists n l', lr ++ rb :: rest = n :: l' /\ kind_eqb (tk n) K_ELSE = false).
+    { destruct items as [|[[kvs2 X2] op2] items'].
+      - apply (RoundTrip.Spell_nil_inv P) in HSr. subst lr. exists rb, rest. split; [reflexivity|rewrite Hrb; reflexivity].
+      - inversion HF' as [|x y Hit2 _]; subst x y. unfold item_ok in Hit2. destruct Hit2 as [_ [[k2 [v2 [rest2 [Ek2 Hsk2]]]] _]]. cbn [map concat fst snd] in HSr. rewrite Ek2 in HSr. cbn [app] in HSr.
+        destruct (RoundTrip.Spell_cons_inv P _ _ _ _ HSr) as [n [l2 [-> [Hkn [_ _]]]]]. exists n, (l2 ++ rb :: rest). split; [reflexivity|].
+        rewrite Hkn. exact (proj2 (proj2 (proj2 (sstart_facts k2 Hsk2)))). }
+    destruct Hnext as [n [l' [En Hn]]].
+    change (t :: tl ++ lr ++ rb :: rest) with ((t :: tl) ++ lr ++ rb :: rest) in HU2. rewrite En in HU2.
+    destruct (H0 s2 (t :: tl) n l' HS1 HU2 (fun _ => Hn)) as [f1 [N [s3 [H3 [HU3 HN]]]]]. rewrite <- En in HU3.
+    destruct (IH HF' s3 lr rb rest HSr HU3 Hrb) as [f2 [Ns [s4 [H4 [HU4 HNs]]]]].
+    rewrite EX in HN. destruct (strip_node_inv _ _ _ _ _ HN) as [fs' [co' EN]].
+    exists (S (Nat.max f1 f2)), (N :: Ns), s4. split; [|split; [exact HU4|cbn [map fst snd]; rewrite HNs, HN, EX; reflexivity]].
+    intros f Hf. destruct f as [|f]; [lia|]. rewrite blk_eq. unfold bind at 1. rewrite H1. rewrite Hkt, Hnrb.
+    unfold bind at 1. unfold starts_declaration. unfold bind at 1. rewrite H2. unfold ret at 1. cbn [okind_in]. rewrite Hkt, Hnds.
+    unfold bind at 1. unfold bind at 1. rewrite (H3 f) by lia. unfold ret at 1. rewrite EN. cbn [stmt_to_items].
+    unfold bind at 1. rewrite (H4 f) by lia. reflexivity.
+Qed.
+
+Lemma s_block : forall items, Forall item_ok items ->
+  StmtS0 (kw K_LBRACE "{" :: concat (map (fun it => fst (fst it)) items) ++ [kw K_RBRACE "}"])
+         (VNode C_Compound [match items with [] => VNone | _ => VList (map (fun it => snd (fst it)) items) end] None) false.
+Proof.
+  intros items HF s le stop l0 HS HU _.
+  destruct (RoundTrip.Spell_cons_inv P _ _ _ _ HS) as [lb [l1 [-> [Hlk [_ HS1]]]]].
+  destruct (RoundTrip.Spell_app_inv P _ _ _ HS1) as [li [l2 [-> [HSi HS2]]]].
+  destruct (RoundTrip.Spell_cons_inv P _ _ _ _ HS2) as [rb [l3 [-> [Hrk [_ HS3]]]]]. apply (RoundTrip.Spell_nil_inv P) in HS3. subst l3.
+  cbn [app] in HU. rewrite <- app_assoc in HU. cbn [app] in HU.
+  destruct (disp_kw K_LBRACE s lb _ HU Hlk eq_refl) as [s1 [HU1 Hd]]. change (sclass K_LBRACE) with 2 in Hd. cbv iota in Hd.
+  assert (Hlbk: kind_eqb (tk lb) K_LBRACE = true) by (rewrite Hlk; reflexivity).
+  destruct (expect_up P s1 lb _ K_LBRACE HU1 Hlbk) as [s2 [H2 [HU2 _]]].
+  assert (Hrbk: kind_eqb (tk rb) K_RBRACE = true) by (rewrite Hrk; reflexivity).
+  destruct items as [|it items'].
+  - cbn [map concat] in HSi. apply (RoundTrip.Spell_nil_inv P) in HSi. subst li. cbn [app] in HU2.
+    destruct (accept_hit P s2 rb _ K_RBRACE HU2 Hrbk) as [s3 [H3 [HU3 _]]].
+    exists 2, (mkN P C_Compound [VNone] (Some (mkCoord P (curfile P s3) (tp lb)))), s3. split; [|split; [exact HU3|reflexivity]].
+    intros f Hf. destruct f as [|[|f]]; try lia. rewrite Hd. rewrite (compound_eq P). unfold bind at 1. rewrite H2. unfold bind at 1. rewrite H3.
+    unfold bind at 1. rewrite tcoord_eq. reflexivity.
+  - (* the first token of the first item is not `}` *)
+    assert (Hfirst: exists t tl, li = t :: tl /\ kind_eqb (tk t) K_RBRACE = false).
+    { inversion HF as [|x y Hit _]; subst x y. destruct it as [[kvs X] op]. unfold item_ok in Hit. destruct Hit as [_ [[k [v [rest0 [Ek Hsk]]]] _]].
+      cbn [map concat fst snd] in HSi. rewrite Ek in HSi. cbn [app] in HSi. destruct (RoundTrip.Spell_cons_inv P _ _ _ _ HSi) as [t [tl [-> [Hkt [_ _]]]]].
+      exists t, tl. split; [reflexivity|rewrite Hkt; exact (proj1 (proj2 (sstart_facts k Hsk)))]. }
+    destruct Hfirst as [t [tl [El Hnrb]]]. rewrite El in HU2. cbn [app] in HU2.
+    destruct (accept_miss P s2 t _ K_RBRACE HU2 Hnrb) as [s3 [H3 [HU3 _]]].
+    change (t :: tl ++ rb :: stop :: l0) with ((t :: tl) ++ rb :: stop :: l0) in HU3. rewrite <- El in HU3.
+    assert (Hrk': tk rb = K_RBRACE) by exact Hrk.
+    destruct (blk_run (it :: items') HF s3 li rb (stop :: l0) HSi HU3 Hrk') as [f1 [Ns [s4 [H4 [HU4 HNs]]]]].
+    destruct (expect_up P s4 rb _ K_RBRACE HU4 Hrbk) as [s5 [H5 [HU5 _]]].
+    exists (S (S f1)), (mkN P C_Compound [VList Ns] (Some (mkCoord P (curfile P s5) (tp lb)))), s5. split; [|split; [exact HU5|unfold mkN; cbn [strip map]; rewrite HNs; reflexivity]].
+    intros f Hf. destruct f as [|[|f]]; try lia. rewrite Hd. rewrite (compound_eq P). unfold bind at 1. rewrite H2. unfold bind at 1. rewrite H3.
+    unfold bind at 1. rewrite (H4 f) by lia. unfold bind at 1. rewrite H5. unfold bind at 1. rewrite tcoord_eq. reflexivity.
 Qed.
 End PS.
 
@@ -739,6 +862,9 @@ Qed.
 End HEAD.
 
 (* ---- all statements ---- *)
+Lemma estart_sstart : forall k, estart k = true -> sstart k = true.
+Proof. intros k H. destruct k; vm_compute in H; try discriminate H; reflexivity. Qed.
+
 Section MainS.
 Variable P : Type.
 Variable rp : bool.
@@ -750,11 +876,30 @@ Proof.
   - apply xt_sestart. exact Hw.
 Qed.
 
-Theorem S_all : forall n x, ssize x <= n -> swf x -> StmtS P (stoks rp x) (embs x) (sopen x).
+Lemma stoks_head : forall x, swf x -> shead (stoks rp x).
+Proof.
+  intros x Hw. destruct x as [e| |o| | |l|c th el|c b|b c|i c nx b|items]; cbn [stoks];
+    try (eexists; eexists; eexists; split; [reflexivity|reflexivity]).
+  cbn [swf] in Hw. destruct (xt_head rp (size e) e (le_n _) Hw [kw K_SEMI ";"] (ncolon_cons K_SEMI (s2l ";") [] eq_refl)) as [k [v [rest [Ek [Hes _]]]]].
+  exists k, v, rest. split; [exact Ek|apply estart_sstart; exact Hes].
+Qed.
+
+Lemma embs_node : forall x, exists c fs co, embs x = VNode c fs co.
+Proof. intros x. destruct x; cbn [embs]; try (eexists; eexists; eexists; reflexivity). apply embx_node. Qed.
+
+Lemma in_ssum : forall (l: list st) a, In a l -> ssize a <= list_sum (map ssize l).
+Proof.
+  induction l as [|x r IH]; intros a H; [destruct H|]. change (list_sum (map ssize (x :: r))) with (ssize x + list_sum (map ssize r)).
+  destruct H as [E|H]; [subst a; lia|]. specialize (IH a H). lia.
+Qed.
+
+Theorem S_all : forall n x, ssize x <= n -> swf x -> StmtS0 P (stoks rp x) (embs x) (sopen x).
 Proof.
   induction n as [|n IH]; intros x Hn Hw; [destruct x; cbn in Hn; lia|].
   assert (HEx: forall e, wf e -> ExprS P (xt rp e) (embx e)) by (intros e He; exact (T_expr P rp e (T_all P rp (size e) e (le_n _) He))).
-  destruct x as [e| |o| | |l|c th el|c b|b c|i c nx b]; cbn [ssize] in Hn; cbn [swf] in Hw; cbn [stoks embs sopen].
+  assert (IHs: forall y, ssize y <= n -> swf y -> StmtS P (stoks rp y) (embs y) (sopen y)).
+  { intros y Hy Hwy. apply s0_to_s; [apply shead_nopragma; apply stoks_head; exact Hwy|apply IH; assumption]. }
+  destruct x as [e| |o| | |l|c th el|c b|b c|i c nx b|items]; cbn [ssize] in Hn; cbn [swf] in Hw; cbn [stoks embs sopen].
   - destruct (embx_node e) as [cc [fs [co EX]]]. eapply s_expr; [exact EX|apply HEx; exact Hw|].
     apply (xt_head rp (size e) e (le_n _) Hw). apply ncolon_cons. reflexivity.
   - apply s_empty.
@@ -764,18 +909,32 @@ Proof.
   - apply s_continue.
   - apply s_goto.
   - destruct Hw as (Hc & Hth & Hel). destruct el as [el|].
-    + destruct Hel as (Hcl & Hwel). pose proof (IH th ltac:(lia) Hth) as HT. rewrite Hcl in HT.
-      apply s_ifelse; [apply HEx; exact Hc|exact HT|apply IH; [lia|exact Hwel]].
-    + rewrite app_nil_r. eapply s_if; [apply HEx; exact Hc|apply IH; [lia|exact Hth]].
-  - destruct Hw as (Hc & Hb). apply s_while; [apply HEx; exact Hc|apply IH; [lia|exact Hb]].
-  - destruct Hw as (Hb & Hc). eapply s_do; [apply HEx; exact Hc|apply IH; [lia|exact Hb]].
-  - destruct Hw as (Hi & Hc & Hnx & Hb). apply s_for; [apply opt_ok; exact Hi|apply opt_ok; exact Hc|apply opt_ok; exact Hnx|apply IH; [lia|exact Hb]].
+    + destruct Hel as (Hcl & Hwel). pose proof (IHs th ltac:(lia) Hth) as HT. rewrite Hcl in HT.
+      apply s_ifelse; [apply HEx; exact Hc|exact HT|apply IHs; [lia|exact Hwel]].
+    + rewrite app_nil_r. eapply s_if; [apply HEx; exact Hc|apply IHs; [lia|exact Hth]].
+  - destruct Hw as (Hc & Hb). apply s_while; [apply HEx; exact Hc|apply IHs; [lia|exact Hb]].
+  - destruct Hw as (Hb & Hc). eapply s_do; [apply HEx; exact Hc|apply IHs; [lia|exact Hb]].
+  - destruct Hw as (Hi & Hc & Hnx & Hb). apply s_for; [apply opt_ok; exact Hi|apply opt_ok; exact Hc|apply opt_ok; exact Hnx|apply IHs; [lia|exact Hb]].
+  - (* block *)
+    assert (HF: Forall (item_ok P) (map (fun y => (stoks rp y, embs y, sopen y)) items)).
+    { apply Forall_forall. intros it Hin. apply in_map_iff in Hin. destruct Hin as [y [<- Hy]].
+      assert (Hwy: swf y).
+      { clear -Hw Hy. induction items as [|z r IHr]; [destruct Hy|]. destruct Hw as [Hz Hr]. destruct Hy as [->|Hy]; [exact Hz|apply IHr; assumption]. }
+      unfold item_ok. split; [apply IH; [pose proof (in_ssum items y Hy); lia|exact Hwy]|]. split; [apply stoks_head; exact Hwy|apply embs_node]. }
+    pose proof (s_block P _ HF) as HB. rewrite !map_map in HB. cbn [fst snd] in HB.
+    destruct items as [|y r]; exact HB.
 Qed.
 
-(* parse . generate = id, token level: every brace-free statement *)
+(* parse . generate = id, token level: every statement, as a block item and in a sub-statement position *)
 Theorem parse_of_generated_statement : forall x, swf x ->
   forall (s: ParserBase.pstate P) le stop l0, RoundTrip.Spell P le (stoks rp x) -> StreamLib.Up P s (le ++ stop :: l0) ->
   (sopen x = true -> kind_eqb (tk stop) K_ELSE = false) ->
   exists f0 N s', (forall f, f0 <= f -> p_pragmacomp_or_statement P f s = Ok (N, s')) /\ StreamLib.Up P s' (stop :: l0) /\ strip N = embs x.
+Proof. intros x Hw. apply s0_to_s; [apply shead_nopragma; apply stoks_head; exact Hw|exact (S_all (ssize x) x (le_n _) Hw)]. Qed.
+
+Theorem parse_of_generated_block_item : forall x, swf x ->
+  forall (s: ParserBase.pstate P) le stop l0, RoundTrip.Spell P le (stoks rp x) -> StreamLib.Up P s (le ++ stop :: l0) ->
+  (sopen x = true -> kind_eqb (tk stop) K_ELSE = false) ->
+  exists f0 N s', (forall f, f0 <= f -> p_statement P f s = Ok (N, s')) /\ StreamLib.Up P s' (stop :: l0) /\ strip N = embs x.
 Proof. intros x Hw. exact (S_all (ssize x) x (le_n _) Hw). Qed.
 End MainS.
